@@ -238,6 +238,7 @@ def run(ctx):
     ctx.rule("R19.o1", "the result of opening an output stream is tested and the failure edge forces a non-zero exit status")
     ctx.rule("R19.o2", "after the last write to an output stream, on every path to a possibly-zero exit, the stream is closed/flushed and then tested for failure")
     ctx.rule("R19.o3", "every failure edge of a stream test reaches only non-zero exits")
+    ctx.rule("R19.b", "no output bypasses the stream's error state: nothing in the generators, the database or their I/O helpers writes through rdbuf()/sputn()/sputc(), whose failures do not set badbit and are therefore invisible to the tests of o2")
     ctx.rule("R19.dead", "a stream whose open is unreachable stays unreachable (else it is subject to o1-o3)")
     total_streams = 0
     for fname, want in MAINS:
@@ -391,3 +392,22 @@ def run(ctx):
                        "failure edge of `%s` reaches an exit with %s status (%s)" % (show(cnode), what, show(bad[0]) if bad and bad[0] else "end of main"))
         ctx.floor("R19.o1", "reachable output streams in %s" % fname, live, want)
     ctx.floor("R19.o1", "output streams", total_streams, 4)
+    no_streambuf_bypass(ctx)
+
+def no_streambuf_bypass(ctx):
+    """R19.b: o2 relies on `a failed write sets badbit/failbit on the ostream`.  That holds for operator<<, put() and
+    write(); it does not hold for writes made directly on the stream buffer."""
+    db = ctx.db
+    n_fn = n_bad = 0
+    for f in db.functions:
+        if not any(d in f.file for d in ("/interrogate/", "/interrogatedb/", "/cppparser/", "/dtoolutil/")):
+            continue
+        n_fn += 1
+        for c in f.walk():
+            if c.get("k") == "call" and ((c.get("f") or "").startswith("std::basic_streambuf::") and callee_short(c) in ("sputn", "sputc", "xsputn", "sputbackc")):
+                n_bad += 1
+                ctx.ob("R19.b", "%s|%s" % (f.name, callee_short(c)), False, f.loc(c),
+                       "`%s` writes on the stream buffer: a failure returns a short count and leaves the ostream's state good" % show(c)[:60])
+    ctx.ob("R19.b", "no-streambuf-writes", n_bad == 0, "src", "%d functions scanned, %d direct stream-buffer writes" % (n_fn, n_bad))
+    ctx.floor("R19.b", "functions scanned", n_fn, 1500)
+
